@@ -353,17 +353,39 @@ def resolveAll (H : Hash) (valid : Obj → Bool) (ext : Bytes → Option (Nat ×
       else if !pending'.isEmpty then ⟨acc', .failed .format⟩
       else ⟨acc', .done⟩
 
+/-! ## the behaviours that the `fix:` series changed
+
+The model is parametrised by them so that the code before the series stays available as `Cfg.old` (regression
+witnesses in Props/C04.lean); `Cfg.current` is what the translator finds in the source now. -/
+
+structure Cfg where
+  visitedSet : Bool            -- `Pack.resolve_object` remembers the offsets on the chain (cycle ⇒ UnresolvedDeltas)
+  rollbackCloseGuarded : Bool  -- the rollback of `_complete_pack` cannot be cut short by `final_pack.close()` raising
+  commitChecksTrailer : Bool   -- `DiskObjectStore.add_pack().commit` calls `pd.check()` before indexing
+  memAddsIncrementally : Bool  -- `MemoryObjectStore` adds objects while the inflater is drained
+  failureRemovesTmp : Bool × Bool  -- (add_thin_pack, add_pack().commit) remove their temp file on failure
+  deriving Repr, DecidableEq
+
+def Cfg.current : Cfg :=
+  ⟨Gen.Ingest.visitedSet, Gen.Ingest.rollbackCloseGuarded, Gen.Ingest.commitChecksTrailer, Gen.Ingest.memAddsIncrementally,
+   (Gen.Ingest.thinFailureRemovesTmp, Gen.Ingest.commitFailureRemovesTmp)⟩
+
+/-- The code before the series (snapshot 671b511 … bb5afda). -/
+def Cfg.old : Cfg := ⟨false, false, false, true, (false, false)⟩
+
 /-! ## random access (`Pack.get_raw` → `resolve_object`) as coded -/
 
 /-- `entryAt off` = what `PackData.get_object_at(off)` returns or raises;
 `idx` = the pack index (name ↦ offset), `ext` = `resolve_ext_ref`.  Result: `none` = out of fuel
 (the Python loop is still running), `some r` = returned/raised.  The walk follows the chain down
-to a non-delta and applies the deltas on the way back; the only cycle check as coded is
-"REF base offset == own offset". -/
-def resolveAt (entryAt : Nat → Except Err Kind) (idx : Bytes → Option Nat) (ext : Bytes → Option (Nat × Bytes)) :
-    Nat → Nat → Option (Except Err (Nat × Bytes))
-  | 0, _ => none
-  | fuel + 1, off =>
+to a non-delta and applies the deltas on the way back.  Cycle checks: "REF base offset == own offset"
+(always), and with `c.visitedSet` the set of offsets already on the chain (`visited`, which then contains
+every offset passed before `off`): coming back to one of them raises UnresolvedDeltas (`.key`). -/
+def resolveAtC (c : Cfg) (entryAt : Nat → Except Err Kind) (idx : Bytes → Option Nat) (ext : Bytes → Option (Nat × Bytes)) :
+    Nat → List Nat → Nat → Option (Except Err (Nat × Bytes))
+  | 0, _, _ => none
+  | fuel + 1, visited, off =>
+    let seen := if c.visitedSet then off :: visited else []
     let app := fun (d : Bytes) (r : Option (Except Err (Nat × Bytes))) =>
       r.map fun x => match x with
         | .error e => Except.error e
@@ -375,7 +397,8 @@ def resolveAt (entryAt : Nat → Except Err Kind) (idx : Bytes → Option Nat) (
     | .ok (.full ty data) => some (.ok (ty, data))
     | .ok (.ofs k d) =>
       if k > off then some (.error .format)          -- `assert offset >= self._header_size`
-      else app d (resolveAt entryAt idx ext fuel (off - k))
+      else if seen.contains (off - k) then some (.error .key)
+      else app d (resolveAtC c entryAt idx ext fuel seen (off - k))
     | .ok (.ref name d) =>
       match idx name with
       | some o =>
@@ -383,12 +406,17 @@ def resolveAt (entryAt : Nat → Except Err Kind) (idx : Bytes → Option Nat) (
           match ext name with
           | some b => app d (some (.ok b))
           | none => some (.error .key)
-        else if Gen.Ingest.selfRefChecked && o = off then some (.error .key)   -- UnresolvedDeltas([basename])
-        else app d (resolveAt entryAt idx ext fuel o)
+        else if (Gen.Ingest.selfRefChecked && o = off) || seen.contains o then some (.error .key)   -- UnresolvedDeltas
+        else app d (resolveAtC c entryAt idx ext fuel seen o)
       | none =>
         match ext name with
         | some b => app d (some (.ok b))
         | none => some (.error .key)
+
+/-- `Pack.get_raw` of the code that exists now. -/
+def resolveAt (entryAt : Nat → Except Err Kind) (idx : Bytes → Option Nat) (ext : Bytes → Option (Nat × Bytes))
+    (fuel off : Nat) : Option (Except Err (Nat × Bytes)) :=
+  resolveAtC Cfg.current entryAt idx ext fuel [] off
 
 /-- `PackData.get_object_at(off)` on the bytes of a pack: `assert offset >= header size`, then `unpack_object_at`
 at that offset — ANY offset, entry boundary or not (this is what an attacker-controlled index can point at). -/
@@ -439,22 +467,35 @@ def extendPack (H : Hash) (deflate : Bytes → Bytes) (file : Bytes) (bases : Li
 /-- `_complete_pack` for a temp file `file` whose entries resolved to `objs` (first pass, PackIndexer — no
 content parsing) using the external `bases`: extend, rename into place, write the index, THEN validate the
 installed pack (framing again + PackInflater, which parses object contents) and roll back on failure.
-As coded the handler first calls `final_pack.close()`; when the failure is a `zlib.error` raised inside the
-mapped pack this raises `BufferError` and the two `os.remove` calls are never reached: the corrupt pack STAYS
-installed and its index keeps listing `objs` (`.other` = that BufferError). -/
-def completePack (inflate : Inflate) (H : Hash) (deflate : Bytes → Bytes) (valid : Obj → Bool) (s : Store) (file : Bytes)
-    (objs : List Obj) (bases : List (Nat × Bytes)) : Store × Option Err :=
+Before the series (`c.rollbackCloseGuarded = false`) the handler first called `final_pack.close()`; when the
+failure was a `zlib.error` raised inside the mapped pack this raised `BufferError` and the two `os.remove`
+calls were never reached: the corrupt pack STAYED installed and its index kept listing `objs`
+(`.other` = that BufferError). -/
+def completePack (c : Cfg) (inflate : Inflate) (H : Hash) (deflate : Bytes → Bytes) (valid : Obj → Bool) (s : Store)
+    (file : Bytes) (objs : List Obj) (bases : List (Nat × Bytes)) : Store × Option Err :=
   match parsePackDataX inflate (extendPack H deflate file bases) with
-  | .error .zlib => if Gen.Ingest.rollbackCloseGuarded then (s, some .format) else (s ++ objs, some .other)
+  | .error .zlib => if c.rollbackCloseGuarded then (s, some .format) else (s ++ objs, some .other)
   | .error e => (s, some e.toErr)
   | .ok (es, _) =>
     match (resolveAll H valid s.lookup es).status with
     | .done => (s ++ objs, none)
     | st => (s, statusErr st)
 
+/-- `PackData(file)`, optionally `check()`, then `iter_unpacked()` — in that order: size and header
+(AssertionError), checksum (ChecksumMismatch), entries. -/
+def checkedPackData (inflate : Inflate) (H : Hash) (check : Bool) (file : Bytes) : Except Err (List Entry × Bytes) :=
+  if file.length < Gen.Ingest.packHeaderLen + Gen.Ingest.oidLen then .error .format else
+  match parseHeader file with
+  | .error e => .error e
+  | .ok _ =>
+    if check && !packDataCheck H file then .error .checksum else
+    match parsePackDataX inflate file with
+    | .error e => .error e.toErr
+    | .ok r => .ok r
+
 /-- The temp file of a disk ingest and the result of the first pass, if it gets that far:
 `(file, objects, external bases used)`. -/
-def diskFirstPass (inflate : Inflate) (H : Hash) (p : Path) (s : Store) (inp : Bytes) :
+def diskFirstPass (c : Cfg) (inflate : Inflate) (H : Hash) (p : Path) (s : Store) (inp : Bytes) :
     Except Err (Option (Bytes × List Obj × List (Nat × Bytes))) :=
   let file : Except Err Bytes := match p with
     | .thin => match parsePackStream inflate H inp with
@@ -467,28 +508,31 @@ def diskFirstPass (inflate : Inflate) (H : Hash) (p : Path) (s : Store) (inp : B
   | .error e => .error e
   | .ok file =>
     if file.isEmpty then .ok none else                   -- `if f.tell() > 0` (add_pack); a thin stream is never empty here
-    match parsePackDataX inflate file with
-    | .error e => .error e.toErr
+    -- add_thin_pack indexes while copying (no PackData, trailer already verified); commit() maps the file
+    match checkedPackData inflate H (p == .addPack && c.commitChecksTrailer) file with
+    | .error e => .error e
     | .ok (entries, _) =>
       let out := resolveAll H (fun _ => true) s.lookup entries
       match out.status with
       | .done => .ok (some (file, out.objs, extUsed s.lookup entries out.objs))
       | st => .error ((statusErr st).getD .other)
 
-/-- `DiskObjectStore.add_thin_pack` / `add_pack().commit`: framing, (thin: trailer,) first-pass resolution;
-any failure there leaves the store as it was; then `_complete_pack`.
-(`add_pack().commit` does not verify the trailer: `extend_pack` recomputes and overwrites it.) -/
-def ingestDisk (inflate : Inflate) (H : Hash) (deflate : Bytes → Bytes) (valid : Obj → Bool) (p : Path) (s : Store) (inp : Bytes) :
-    Store × Option Err :=
-  match diskFirstPass inflate H p s inp with
+/-- `DiskObjectStore.add_thin_pack` / `add_pack().commit`: framing, trailer (thin: always; commit: since the
+series), first-pass resolution; any failure there leaves the store as it was; then `_complete_pack`. -/
+def ingestDiskC (c : Cfg) (inflate : Inflate) (H : Hash) (deflate : Bytes → Bytes) (valid : Obj → Bool) (p : Path)
+    (s : Store) (inp : Bytes) : Store × Option Err :=
+  match diskFirstPass c inflate H p s inp with
   | .error e => (s, some e)
   | .ok none => (s, none)
-  | .ok (some (file, objs, bases)) => completePack inflate H deflate valid s file objs bases
+  | .ok (some (file, objs, bases)) => completePack c inflate H deflate valid s file objs bases
+
+def ingestDisk := ingestDiskC Cfg.current
 
 /-- `MemoryObjectStore`: `add_thin_pack` = PackStreamCopier.verify into a spool file, then `commit()`;
-`commit()` = `PackData` + `check()` + `for obj in PackInflater(...): self.add_object(obj)` — objects are
-added while the iterator is drained, so whatever was yielded before a failure STAYS in the store. -/
-def ingestMem (inflate : Inflate) (H : Hash) (valid : Obj → Bool) (p : Path) (s : Store) (inp : Bytes) :
+`commit()` = `PackData` + `check()` + PackInflater.  Before the series (`c.memAddsIncrementally`) objects were
+added while the iterator was drained, so whatever was yielded before a failure STAYED in the store; now the
+whole pack is resolved first. -/
+def ingestMemC (c : Cfg) (inflate : Inflate) (H : Hash) (valid : Obj → Bool) (p : Path) (s : Store) (inp : Bytes) :
     Store × Option Err :=
   let spooled : Except Err Bytes := match p with
     | .thin => match parsePackStream inflate H inp with
@@ -502,18 +546,15 @@ def ingestMem (inflate : Inflate) (H : Hash) (valid : Obj → Bool) (p : Path) (
   | .error e => (s, some e)
   | .ok file =>
     if file.isEmpty then (s, none) else                  -- `if size > 0`
-    if file.length < Gen.Ingest.packHeaderLen + Gen.Ingest.oidLen then (s, some .format) else
-    match parseHeader file with
-    | .error e => (s, some e)
-    | .ok _ =>
-      if Gen.Ingest.memChecksTrailer && !packDataCheck H file then (s, some .checksum) else
-      match parsePackData inflate file with
-      | .error e => (s, some e)                          -- iter_unpacked is drained by for_pack_data before anything is added
-      | .ok entries =>
-        let out := resolveAll H valid s.lookup entries
-        match out.status with
-        | .done => (s ++ out.objs, none)
-        | st => (if Gen.Ingest.memAddsIncrementally then s ++ out.objs else s, statusErr st)
+    match checkedPackData inflate H Gen.Ingest.memChecksTrailer file with
+    | .error e => (s, some e)                            -- iter_unpacked is drained by for_pack_data before anything is added
+    | .ok (entries, _) =>
+      let out := resolveAll H valid s.lookup entries
+      match out.status with
+      | .done => (s ++ out.objs, none)
+      | st => (if c.memAddsIncrementally then s ++ out.objs else s, statusErr st)
+
+def ingestMem := ingestMemC Cfg.current
 
 /-! ## file-system steps of the disk paths (one new pack `b`; everything else is frame)
 
@@ -559,18 +600,20 @@ inductive FailAt where
   deriving Repr, DecidableEq
 
 /-- The mutating calls `add_thin_pack` / `add_pack().commit` make, as coded, for each failure point. -/
-def diskProgram (p : Path) (f : FailAt) : List FsOp :=
+def diskProgramC (c : Cfg) (p : Path) (f : FailAt) : List FsOp :=
   let install := [FsOp.renameTmpToPack, .openIdxLock, .renameIdxLock]
   let rollback := (if Gen.Ingest.rollbackRemovesPack then [FsOp.removePack] else []) ++
                   (if Gen.Ingest.rollbackRemovesIdx then [FsOp.removeIdx] else [])
   let cleanup := match p with
-    | .thin => if Gen.Ingest.thinFailureRemovesTmp then [FsOp.removeTmp] else []
-    | .addPack => if Gen.Ingest.commitFailureRemovesTmp then [FsOp.removeTmp] else []
+    | .thin => if c.failureRemovesTmp.1 then [FsOp.removeTmp] else []
+    | .addPack => if c.failureRemovesTmp.2 then [FsOp.removeTmp] else []
   match f with
   | .never => [.createTmp, .writeTmp] ++ install
   | .copy => [.createTmp, .writeTmp] ++ cleanup
   | .validate => [.createTmp, .writeTmp] ++ install ++ rollback
-  | .validateZlib => [.createTmp, .writeTmp] ++ install ++ (if Gen.Ingest.rollbackCloseGuarded then rollback else [])
+  | .validateZlib => [.createTmp, .writeTmp] ++ install ++ (if c.rollbackCloseGuarded then rollback else [])
+
+def diskProgram := diskProgramC Cfg.current
 
 /-- `add_pack()`; write fails; `abort()`. -/
 def abortProgram : List FsOp :=
